@@ -449,6 +449,51 @@ impl Gen {
         self.struct_op(a);
     }
 
+    /// Biased pattern: a client first learns of a server entity only through a reference (it reserves a
+    /// placeholder for it), then the entity starts to replicate in the tick in which the server also maps it
+    /// to an entity that client pre-spawned.
+    fn recipe_reference_then_map(&mut self) {
+        if self.prof.slots < 2 {
+            return;
+        }
+        let t = self.slot();
+        let r = (t + 1 + self.r.below(self.prof.slots as usize - 1) as u8) % self.prof.slots;
+        let c = self.r.below(self.prof.clients as usize) as u8;
+        let cslot = self.r.below(4) as u8;
+        if self.live[t as usize] {
+            self.steps.push(Step::Despawn { slot: t });
+        }
+        let hide = self.prof.app.vis == 1 && self.r.chance(50);
+        self.steps.push(Step::Spawn { slot: t, kinds: vec![Kind::A], marker: hide });
+        self.live[t as usize] = true;
+        if hide {
+            self.steps.push(Step::SetVis { client: c, slot: t, visible: false });
+        }
+        if !self.live[r as usize] {
+            self.steps.push(Step::Spawn { slot: r, kinds: vec![Kind::B], marker: true });
+            self.live[r as usize] = true;
+        }
+        self.steps.push(Step::Point { slot: r, kind: Kind::Ref, target: t });
+        for _ in 0..self.r.range(1, 2) {
+            self.steps.push(Step::ServerFrame { tick: true, dt_ms: 16 });
+            for cl in 0..self.prof.clients {
+                self.network(cl);
+                self.steps.push(Step::ClientFrame { client: cl, dt_ms: 16 });
+                self.uplink(cl);
+            }
+        }
+        self.steps.push(Step::PreSpawn { client: c, cslot });
+        let mut ops = vec![
+            Step::MapPreSpawn { client: c, slot: t, cslot },
+            if hide { Step::SetVis { client: c, slot: t, visible: true } } else { Step::MarkerOn { slot: t } },
+        ];
+        if self.r.chance(50) {
+            ops.swap(0, 1);
+        }
+        self.steps.extend(ops);
+        self.struct_op(t);
+    }
+
     /// Connection life-cycle events with the given per-call probabilities (%): a client session ending
     /// (either end first, the other noticing later) and a server stop/start with clients that keep
     /// running and receiving for a while.
@@ -777,6 +822,9 @@ impl Gen {
             }
             if self.focus == Focus::Packing && self.prof.app.sync_related && self.r.chance(10) {
                 self.recipe_join_groups();
+            }
+            if self.focus == Focus::PreSpawn && self.r.chance(8) {
+                self.recipe_reference_then_map();
             }
             if self.en_refs && matches!(self.focus, Focus::Replication | Focus::Visibility) && self.r.chance(6) {
                 self.recipe_repoint_with_removal();
